@@ -105,6 +105,10 @@ struct Lexer<'src> {
     /// and the mode stack.
     #[cfg(debug_assertions)]
     last_state: (u32, Vec<LexerMode>),
+
+    /// Verification hook state (iteration counter, end-of-input snapshot)
+    #[cfg(sas_lexer_verif)]
+    verif: VerifInfo,
 }
 
 /// Result of lexing
@@ -115,6 +119,9 @@ pub struct LexResult {
 
     #[cfg(any(feature = "opti_stats", test))]
     pub max_mode_stack_depth: usize,
+
+    #[cfg(sas_lexer_verif)]
+    pub verif: VerifInfo,
 }
 
 impl Lexer<'_> {
@@ -159,6 +166,8 @@ impl Lexer<'_> {
             checkpoint: None,
             macro_nesting_level,
             pending_stat_stack: BitVec::from_elem(1, false),
+            #[cfg(sas_lexer_verif)]
+            verif: VerifInfo::default(),
         })
     }
 
@@ -451,6 +460,21 @@ impl Lexer<'_> {
         let mut max_mode_stack_depth = 0usize;
 
         while let Some(next_char) = self.cursor.peek() {
+            #[cfg(sas_lexer_verif)]
+            {
+                self.verif.iters += 1;
+                if self.verif.iters > 8 * u64::from(self.source_len) + 64 {
+                    self.verif.aborted = true;
+                    break;
+                }
+                if self.verif.trace_on {
+                    self.verif.trace.push((
+                        self.cursor.remaining_len(),
+                        format!("{:?}", self.mode_stack),
+                    ));
+                }
+            }
+
             self.lex_token(next_char);
 
             #[cfg(any(feature = "opti_stats", test))]
@@ -475,6 +499,8 @@ impl Lexer<'_> {
                             buffer: self.buffer.into_detached(self.source),
                             errors: self.errors,
                             max_mode_stack_depth,
+                            #[cfg(sas_lexer_verif)]
+                            verif: self.verif,
                         };
                     }
 
@@ -483,11 +509,21 @@ impl Lexer<'_> {
                         return LexResult {
                             buffer: self.buffer.into_detached(self.source),
                             errors: self.errors,
+                            #[cfg(sas_lexer_verif)]
+                            verif: self.verif,
                         };
                     }
                 };
                 self.last_state = new_state;
             }
+        }
+
+        #[cfg(sas_lexer_verif)]
+        {
+            self.verif.end_modes = format!("{:?}", self.mode_stack);
+            self.verif.end_macro_nesting_level = self.macro_nesting_level;
+            self.verif.end_pending_stat = self.pending_stat_stack.iter().collect();
+            self.verif.end_checkpoint_set = self.checkpoint.is_some();
         }
 
         self.finalize_lexing();
@@ -498,6 +534,8 @@ impl Lexer<'_> {
                 buffer: self.buffer.into_detached(self.source),
                 errors: self.errors,
                 max_mode_stack_depth,
+                #[cfg(sas_lexer_verif)]
+                verif: self.verif,
             }
         }
 
@@ -506,6 +544,8 @@ impl Lexer<'_> {
             LexResult {
                 buffer: self.buffer.into_detached(self.source),
                 errors: self.errors,
+                #[cfg(sas_lexer_verif)]
+                verif: self.verif,
             }
         }
     }
@@ -5284,4 +5324,96 @@ impl Lexer<'_> {
 pub fn lex_program<S: AsRef<str>>(source: &S) -> Result<LexResult, ErrorKind> {
     let lexer = Lexer::new(source.as_ref(), None, None)?;
     Ok(lexer.lex())
+}
+
+/// Verification hook: what the instrumented lexer reports besides its result.
+#[cfg(sas_lexer_verif)]
+#[derive(Debug, Default, Clone)]
+pub struct VerifInfo {
+    /// Number of main loop iterations
+    pub iters: u64,
+    /// The main loop was left because the iteration budget was exhausted
+    pub aborted: bool,
+    /// Debug rendering of the mode stack when the input was exhausted (before finalization)
+    pub end_modes: String,
+    pub end_macro_nesting_level: u32,
+    pub end_pending_stat: Vec<bool>,
+    pub end_checkpoint_set: bool,
+    /// If set before lexing, (remaining bytes, mode stack) is recorded at every iteration
+    pub trace_on: bool,
+    pub trace: Vec<(u32, String)>,
+}
+
+/// Verification hook: `lex_program` with the iteration budget and optional tracing.
+#[cfg(sas_lexer_verif)]
+pub fn lex_program_verif<S: AsRef<str>>(source: &S, trace: bool) -> Result<LexResult, ErrorKind> {
+    let mut lexer = Lexer::new(source.as_ref(), None, None)?;
+    lexer.verif.trace_on = trace;
+    Ok(lexer.lex())
+}
+
+/// Verification hook: thin public wrappers of the crate-private pure helpers.
+#[cfg(sas_lexer_verif)]
+pub mod verif_hooks {
+    use super::cursor::Cursor;
+    use super::error::ErrorKind;
+    use super::numeric::NumericParserResult;
+    use super::token_type::TokenType;
+    use super::Payload;
+
+    type Numeric = Option<(TokenType, Payload, usize, Option<ErrorKind>)>;
+
+    fn conv(r: Option<NumericParserResult>) -> Numeric {
+        r.map(|r| (r.token.0, r.token.1, r.length.get(), r.error))
+    }
+
+    pub fn try_parse_decimal(source: &str, try_integer: bool, try_float: bool) -> Numeric {
+        conv(super::numeric::try_parse_decimal(source, try_integer, try_float))
+    }
+
+    pub fn try_parse_hex_integer(source: &str) -> Numeric {
+        conv(super::numeric::try_parse_hex_integer(source))
+    }
+
+    pub fn parse_sas_hex_string(text: &str) -> Result<String, ErrorKind> {
+        super::hex::parse_sas_hex_string(text)
+    }
+
+    pub fn is_macro_amp(s: &str) -> (bool, u32) {
+        super::r#macro::is_macro_amp(s.chars())
+    }
+
+    pub fn get_macro_resolve_ops_from_amps(amp_count: u32) -> Vec<u8> {
+        super::r#macro::get_macro_resolve_ops_from_amps(amp_count)
+    }
+
+    pub fn is_macro_eval_mnemonic(s: &str) -> (Option<TokenType>, u32) {
+        super::r#macro::is_macro_eval_mnemonic(s.chars())
+    }
+
+    pub fn is_macro_stat(s: &str) -> bool {
+        super::r#macro::is_macro_stat(s)
+    }
+
+    pub fn is_macro_percent(follow_char: char, in_eval_context: bool) -> bool {
+        super::r#macro::is_macro_percent(follow_char, in_eval_context)
+    }
+
+    #[cfg(feature = "macro_sep")]
+    pub fn needs_macro_sep(prev: Option<TokenType>, tok_type: TokenType) -> bool {
+        super::r#macro::needs_macro_sep(prev, tok_type)
+    }
+
+    pub fn lex_macro_call_stat_or_label(s: &str) -> Result<(TokenType, u32), ErrorKind> {
+        let mut cursor = Cursor::new(s);
+        super::r#macro::lex_macro_call_stat_or_label(&mut cursor).map(|(t, n)| (t.into(), n))
+    }
+
+    pub fn parse_keyword(ident: &str) -> Option<TokenType> {
+        super::token_type::parse_keyword(ident)
+    }
+
+    pub fn parse_macro_keyword(ident: &str) -> Option<TokenType> {
+        super::token_type::parse_macro_keyword(ident)
+    }
 }
